@@ -27,6 +27,9 @@ func (c *Ctx) tplInit() *tplState {
 	s := &tplState{}
 	c.tplS = s
 	s.x = tpl.NewExtractor(c.P.Pkgs, c.P.Implementers)
+	if c.Tier == "thorough" {
+		s.x.MaxDepth = 4 // three nesting levels unfolded, the fourth cut
+	}
 	gen := c.P.Pkg("/pkg/generator")
 	if gen == nil {
 		s.err = fmt.Errorf("generator package not found")
